@@ -180,6 +180,14 @@ pub fn child(args: &[String]) -> i32 {
             Ok(b) => format!("{}:{}", b.len(), hex(&b)),
             Err(e) => format!("error:{}", hex(e.to_string().as_bytes())),
         };
+        // the deployed way of compiling: the same program spread over the files of a project folder (four files,
+        // one in a sub-directory), built by bundle_builder::build_program_stbc -- the folder has the same path in every
+        // process (the container names its source files), so processes take turns on it
+        let bytes = if kind == "names" || kind == "confnames" {
+            format!("{bytes}/bundle:{}", bundle_bytes(&src, k))
+        } else {
+            bytes
+        };
         let mut digests: Vec<String> = Vec::new();
         match TestHarness::from_source(&src) {
             Ok(mut h) => {
@@ -234,4 +242,35 @@ pub fn child(args: &[String]) -> i32 {
         println!("{}", json!({"k": k, "kind": kind, "bytes": bytes, "digests": digests, "srclen": src.len()}));
     }
     0
+}
+
+fn bundle_bytes(src: &str, k: usize) -> String {
+    let base = std::env::temp_dir().join("zq-det-bundle");
+    let _ = std::fs::create_dir_all(&base);
+    // one process at a time per folder
+    let lock = base.join(format!("p{k}.lock"));
+    let t0 = std::time::Instant::now();
+    while std::fs::create_dir(&lock).is_err() {
+        if t0.elapsed().as_secs() > 60 {
+            let _ = std::fs::remove_dir(&lock); // a stale lock of a killed process
+        }
+        std::thread::sleep(std::time::Duration::from_millis(2));
+    }
+    let dir = base.join(format!("p{k}"));
+    let _ = std::fs::remove_dir_all(&dir);
+    let r = (|| -> Result<Vec<u8>, String> {
+        std::fs::create_dir_all(dir.join("src/sub")).map_err(|e| e.to_string())?;
+        std::fs::write(dir.join("src/m.st"), src).map_err(|e| e.to_string())?;
+        for (f, n) in [("src/a.st", "ZqBundleA"), ("src/z.st", "ZqBundleZ"), ("src/sub/d.st", "ZqBundleD")] {
+            std::fs::write(dir.join(f), format!("FUNCTION {n}{k} : INT\nVAR_INPUT x : INT; END_VAR\n{n}{k} := x + INT#{};\nEND_FUNCTION\n", k % 7)).map_err(|e| e.to_string())?;
+        }
+        let rep = trust_runtime::bundle_builder::build_program_stbc(&dir, None).map_err(|e| format!("{e:#}"))?;
+        std::fs::read(&rep.program_path).map_err(|e| e.to_string())
+    })();
+    let _ = std::fs::remove_dir_all(&dir);
+    let _ = std::fs::remove_dir(&lock);
+    match r {
+        Ok(b) => format!("{}:{}", b.len(), hex(&b)),
+        Err(e) => format!("error:{}", hex(e.lines().next().unwrap_or("").as_bytes())),
+    }
 }
